@@ -317,6 +317,12 @@ func runC07(p *Prog, r *Result) {
 		}
 	}
 	a.computeMoves()
+	r.Rule("R07d", "fill() advances the offset base by the cursor, once per call, before the cursor is reset (shared with C10 R10d): positions do not depend on where reads end", 1)
+	checkOffsetBase(p, r, p.Pkg("syntax"), "R07d")
+	r.Rule("R07e", "a field fill() increments on an empty read and compares with a limit is set back to zero when a read returns bytes (shared with C08)", 0)
+	if n := checkRetryCounterReset(p, r, p.Pkg("syntax"), "R07e"); n == 0 {
+		r.Notef("R07e: fill() keeps no count of empty reads on this tree (it retries forever on a reader that returns (0, nil)); the rule is armed by a control")
+	}
 	r.Rule("R07c", "a copy of the read position taken before a call that may refill the buffer is not used after it", 0)
 	checkStaleCursorCopies(p, r, a, "R07c")
 
@@ -561,6 +567,12 @@ func onFillCycle(g *FGraph, b *FBlock, info *types.Info, fillFn *types.Func) boo
 }
 
 var c07Controls = []Control{
+	{Name: "empty-read-count-never-reset", Rule: "R07e", WantKey: "fill#emptyReads counts consecutive empty reads", File: "syntax/lexer.go",
+		Mutate: ctlChain(ctlReplaceAnywhere("\t\tif err == nil {\n\t\t\tgoto readAgain\n\t\t}\n", "\t\tif err == nil {\n\t\t\tif fillStats.emptyReads++; fillStats.emptyReads < 100 {\n\t\t\t\tgoto readAgain\n\t\t\t}\n\t\t\terr = io.ErrNoProgress\n\t\t\tp.readErr = err\n\t\t}\n"),
+			ctlAppendDecl("var fillStats struct{ emptyReads int }\n")),
+	},
+	{Name: "offset-base-counts-read-ahead-bytes", Rule: "R07d", WantKey: "fill#offs += bsp", File: "syntax/lexer.go",
+		Mutate: ctlReplaceAnywhere("\tp.offs += int64(p.bsp)\n\tleft := len(p.bs) - int(p.bsp)\n", "\tp.offs += int64(len(p.bs))\n\tleft := len(p.bs) - int(p.bsp)\n")},
 	{Name: "cursor-restored-after-a-peek", Rule: "R07c", WantKey: "copy of the read position in cr", File: "syntax/lexer.go",
 		Mutate: ctlReplaceAnywhere("\t\t\t} else if p1, p2 := p.peekTwo(); p1 == '\\r' && p2 == '\\n' { // \\\\\\r\\n turns into \\\\\\n\n\t\t\t\tp.col++\n\t\t\t\tp.bsp += 2\n\t\t\t\tp.w, p.r = 2, escNewl\n\t\t\t\treturn escNewl\n\t\t\t}", "\t\t\t} else if p.peek() == '\\r' {\n\t\t\t\tcr := p.bsp\n\t\t\t\tp.bsp++\n\t\t\t\tif p.peek() == '\\n' {\n\t\t\t\t\tp.col++\n\t\t\t\t\tp.bsp++\n\t\t\t\t\tp.w, p.r = 2, escNewl\n\t\t\t\t\treturn escNewl\n\t\t\t\t}\n\t\t\t\tp.bsp = cr\n\t\t\t}")},
 	{Name: "hdoc-tab-skip-looks-at-buffer-only", Rule: "R07a", WantKey: "advanceLitHdoc", File: "syntax/lexer.go",
